@@ -263,7 +263,7 @@ func c04Op(c *Ctx, w *World, h *Hist, u2 string, faults bool) {
 		f.exc = []string{"dir"}
 		fargs = []string{"-I", "*.bin", "-X", "dir"}
 	}
-	kind := t.Choose(7, "c04-op")
+	kind := t.Choose(8, "c04-op")
 	switch kind {
 	case 0, 1: // git lfs fetch [ref]
 		ref := "HEAD"
@@ -480,6 +480,72 @@ func c04Op(c *Ctx, w *World, h *Hist, u2 string, faults bool) {
 				return
 			}
 			c.Probe("pointer-file-materialised")
+		}
+	case 7: // files rewritten by git while lfs.fetchinclude/exclude is configured and every object is local
+		if _, code := w.Git(u2, "lfs", "fetch", "--all", "origin"); code != 0 {
+			c.Probe("fetch-failed")
+			return
+		}
+		var cf pathFilter
+		switch t.Choose(3, "configured-filter") {
+		case 0:
+			cf.exc = []string{"dir"}
+			w.MustGit(u2, "config", "lfs.fetchexclude", "dir")
+		case 1:
+			cf.exc = []string{"*.dat"}
+			w.MustGit(u2, "config", "lfs.fetchexclude", "*.dat")
+		default:
+			cf.inc = []string{"*.bin"}
+			cf.exc = []string{"dir"}
+			w.MustGit(u2, "config", "lfs.fetchinclude", "*.bin")
+			w.MustGit(u2, "config", "lfs.fetchexclude", "dir")
+		}
+		defer func() {
+			w.Git(u2, "config", "--unset", "lfs.fetchexclude")
+			w.Git(u2, "config", "--unset", "lfs.fetchinclude")
+		}()
+		w.Git(u2, "reset", "-q", "--hard")
+		tree := w.TreePointers(u2, "HEAD")
+		var ps []string
+		for p := range tree {
+			ps = append(ps, p)
+		}
+		sort.Strings(ps)
+		for _, p := range ps {
+			os.Remove(filepath.Join(u2, p))
+		}
+		out, code := w.Git(u2, "checkout", "-q", "-f", "HEAD", "--", ".")
+		if code != 0 {
+			c.Probe("checkout-failed")
+			if !faults {
+				c.Violation("checkout-failed", "fault-free git checkout -- . exited %d: %s", code, firstLine(out))
+			}
+			return
+		}
+		c.Probe("checkout-with-configured-filter")
+		local := LocalObjects(g2)
+		for _, p := range ps {
+			pr := tree[p]
+			attr, _ := w.GitQ(u2, "check-attr", "filter", "--", p)
+			if !strings.HasSuffix(strings.TrimSpace(attr), "filter: lfs") || pr.Size == 0 {
+				continue
+			}
+			wt := readWT(u2, p)
+			if !wt.ok {
+				continue
+			}
+			if !cf.allows(p) {
+				if string(wt.data) != PointerText(pr.Oid, pr.Size) {
+					c.Violation("skipped-file-not-a-pointer", "git checkout wrote %s, which lfs.fetchinclude=%v lfs.fetchexclude=%v excludes, as %d bytes that are not its pointer (object local: %v)", p, cf.inc, cf.exc, len(wt.data), local[pr.Oid] != nil)
+					return
+				}
+				c.Probe("excluded-file-is-pointer")
+				continue
+			}
+			if Oid(wt.data) != pr.Oid {
+				c.Violation("working-file-wrong", "git checkout wrote %s (selected by the configured filter, object local: %v) as %d bytes that are not the content of %s", p, local[pr.Oid] != nil, len(wt.data), pr.Oid[:12])
+				return
+			}
 		}
 	default: // git checkout of another ref (filters run)
 		w.Git(u2, "reset", "-q", "--hard")
